@@ -30,7 +30,7 @@ CATS_TAKE = [(4, "within"), (2, "exact"), (3, "beyond"), (1, "zero"),
 CATS_CUT = [(4, "within"), (2, "exact"), (3, "beyond"), (1, "zero"),
             (1, "neg"), (2, "float")]
 MAX_POOL = 6
-HANG_SECONDS = 20
+HANG_SECONDS = 60
 
 
 class _Hang(BaseException):
